@@ -227,7 +227,7 @@ func hdr(maj byte, n uint64) []byte {
 
 func TestCheck(t *testing.T) {
 	r := vp.New("C10", "exploration",
-		"messages: {CIDv0, CIDv1 x 3 codecs x 3 hash functions} x {every list of 0..3 addresses over a 5-symbol alphabet incl. unknown-protocol, empty and 300-byte strings} x {extra data nil/empty/1/24/256 bytes} x {orig peer absent/present}, CBOR and JSON round trips; HTTP sender (CBOR and JSON) and pubsub sender for every address list of <=3 over {3 valid, 1 unknown-protocol}, the HTTP sender also with extra data whose only, first or last byte is each of the 256 byte values (lists of <=1 address), with an original-peer field and with extra data carried by the message instead of the sender option; CBOR decoder: for each corpus encoding every single-byte substitution, every truncation, every CBOR header token at every offset (replacing 0 or 1 byte) singly and a reduced token set in adjacent pairs, lengths at and just above each cap, all byte strings of length <=2. Non-trivial: messages with at least one address or extra data; decoder inputs other than the corpus.",
+		"messages: {CIDv0, CIDv1 x 3 codecs x 3 hash functions} x {every list of 0..3 addresses over a 5-symbol alphabet incl. unknown-protocol, empty and 300-byte strings} x {extra data nil/empty/1/24/256 bytes} x {orig peer absent/present}, CBOR and JSON round trips; HTTP sender (CBOR and JSON) and pubsub sender for every address list of <=3 over {3 valid, 1 unknown-protocol}, the HTTP sender also with extra data whose only, first or last byte is each of the 256 byte values (lists of <=1 address), with an original-peer field and with extra data carried by the message instead of the sender option, and one message value sent through a sender with extra data of its own and then through a plain one; CBOR decoder: for each corpus encoding every single-byte substitution, every truncation, every CBOR header token at every offset (replacing 0 or 1 byte) singly and a reduced token set in adjacent pairs, lengths at and just above each cap, all byte strings of length <=2. Non-trivial: messages with at least one address or extra data; decoder inputs other than the corpus.",
 		"equality treats nil and empty byte fields alike",
 		"allocation bound: input length + 2 x ByteArrayMaxLen + 256 KiB",
 		"decoder inputs run in a worker subprocess with a 6 GiB address-space limit",
@@ -705,6 +705,73 @@ func checkSenders(r *vp.Recorder) {
 				}
 				r.Outcome("httpsend-ok")
 			}
+		}
+	}
+
+	// the same message value handed to two senders in turn: one configured
+	// with extra data of its own (which it puts on the wire in place of the
+	// message's), then a plain one. The message belongs to the caller: what the
+	// second sender puts on the wire is the message as the caller built it.
+	for _, mode := range []string{"cbor", "json"} {
+		for _, first := range []string{"http", "http-json"} {
+			key := fmt.Sprintf("httpsend-twice|%s-then-%s", first, mode)
+			if !r.Mine(key) {
+				continue
+			}
+			r.Eval(key, true)
+			own := append(make([]byte, 0, 64), []byte("t01234-provider")...)
+			msg := message.Message{Cid: c, ExtraData: own, Addrs: [][]byte{valid[0].Bytes()}}
+			snapshot := message.Message{Cid: c, ExtraData: append([]byte(nil), own...), Addrs: [][]byte{append([]byte(nil), valid[0].Bytes()...)}}
+			withExtra, err1 := httpsender.New([]*url.URL{u}, pub.ID, httpsender.WithClient(n.Client()), httpsender.WithExtraData([]byte("XY")))
+			plain, err2 := httpsender.New([]*url.URL{u}, pub.ID, httpsender.WithClient(n.Client()))
+			if err1 != nil || err2 != nil {
+				r.Violation("httpsender:new-error", key, fmt.Sprint(err1, err2), nil)
+				continue
+			}
+			ctx, cancel := context.WithTimeout(context.Background(), 30*time.Second)
+			var serr1, serr2 error
+			pn, pm := vp.Guard(func() {
+				if first == "http" {
+					serr1 = withExtra.Send(ctx, msg)
+				} else {
+					serr1 = withExtra.SendJson(ctx, msg)
+				}
+				if mode == "cbor" {
+					serr2 = plain.Send(ctx, msg)
+				} else {
+					serr2 = plain.SendJson(ctx, msg)
+				}
+			})
+			cancel()
+			withExtra.Close()
+			plain.Close()
+			if pn || serr1 != nil || serr2 != nil {
+				r.Violation("httpsender:send-error", key, fmt.Sprint(firstLine(pm), serr1, serr2), nil)
+				continue
+			}
+			mu.Lock()
+			body := gotBody
+			mu.Unlock()
+			var got message.Message
+			var derr error
+			if mode == "cbor" {
+				derr = got.UnmarshalCBOR(bytes.NewReader(body))
+			} else {
+				derr = json.Unmarshal(body, &got)
+			}
+			if derr != nil {
+				r.Violation("httpsender:receiver-cannot-decode:"+mode, key, derr.Error(), nil)
+				continue
+			}
+			if !bytes.Equal(got.ExtraData, snapshot.ExtraData) {
+				r.Violation("httpsender:second-send-of-a-message-differs:"+mode, key, fmt.Sprintf("a message with extra data %q was sent through a sender with its own extra data and then through a plain sender: the second request carries extra data %q", snapshot.ExtraData, got.ExtraData), nil)
+				continue
+			}
+			if !bytes.Equal(msg.ExtraData, snapshot.ExtraData) || !bytes.Equal(msg.Addrs[0], snapshot.Addrs[0]) {
+				r.Violation("httpsender:message-of-the-caller-modified", key, fmt.Sprintf("after two sends the caller's message has extra data %q (was %q)", msg.ExtraData, snapshot.ExtraData), nil)
+				continue
+			}
+			r.Outcome("httpsend-twice-ok")
 		}
 	}
 
